@@ -226,6 +226,12 @@ impl InlineName {
         // which means it is sound to convert it unchecked as a valid label is ASCII
         let label_as_str = unsafe { std::str::from_utf8_unchecked(label) };
 
+        // `new_len` is the text length; the wire form is one octet longer (the terminating zero)
+        let new_len = self.arr.len() + label_as_str.len() + 1;
+        if new_len >= DOMAIN_NAME_MAX_LENGTH {
+            return Err(Error::DomainNameTooLong(new_len + 1));
+        }
+
         if self.arr.try_push_str(label_as_str).is_err() {
             return Err(Error::DomainNameTooLong(
                 self.arr.len() + label_as_str.len() + 1,
